@@ -315,6 +315,36 @@ def extract_fn(item, opts, blocks, rewrites_log, as_stub=False):
                     q = fe_close + 2; continue
             q += 1
 
+    # ---- R4b (opt iter=1): `for (I, P) in X.iter().enumerate() { B }`  ->  `for I in verif_it: 0..X.len() { let P = &X[I]; B }`
+    #      and the iter_mut() form with `let P = &mut X[I];`. X is any place expression (e.g. self.c0). Ghost text: //@ iterloop k / iterend k
+    #      (numbering continues after the for_each loops of R4).
+    if opts.get('iter') == '1' and not as_stub:
+        q = bodyp + 1
+        nloop_b = sum(1 for r in rewrites_log if r.get('rule') == 'R4' and r.get('fn') == item.name)
+        while q < bodye - 8:
+            if tk(q)[1] == 'for' and tk(q + 1)[1] == '(' and tk(q + 2)[0] == 'id' and tk(q + 3)[1] == ',' and tk(q + 4)[0] == 'id' and tk(q + 5)[1] == ')' and tk(q + 6)[1] == 'in':
+                e = q + 7
+                while e < bodye and tk(e)[1] != '{': e += 1
+                # tokens q+7 .. e-1 must end with . iter|iter_mut ( ) . enumerate ( )
+                tail = [tk(i)[1] for i in range(e - 8, e)]
+                if len(tail) == 8 and tail[0] == '.' and tail[1] in ('iter', 'iter_mut') and tail[2:] == ['(', ')', '.', 'enumerate', '(', ')'] and e - 8 > q + 6:
+                    xexpr = text[tk(q + 7)[2]:tk(e - 9)[3]]
+                    iv = tk(q + 2)[1]; pv = tk(q + 4)[1]; mut = tail[1] == 'iter_mut'
+                    cb = match_close(toks, ci, e)
+                    nloop_b += 1
+                    s0 = tk(q)[2]; e0 = tk(e)[3]
+                    new = ('for %s in verif_it: 0..%s.len() %s{%s let %s = &%s%s[%s];'
+                           % (iv, xexpr, G('iterloop %d' % nloop_b, '\n' + blocks.get('iterloop %d' % nloop_b, '').rstrip() + '\n'),
+                              G('iterbody %d' % nloop_b, '\n' + blocks.get('iterbody %d' % nloop_b, '').rstrip() + '\n') if blocks.get('iterbody %d' % nloop_b) else '',
+                              pv, 'mut ' if mut else '', xexpr, iv))
+                    edits.append((s0, e0, R('4', text[s0:e0], new)))
+                    pos = tk(cb)[2]
+                    edits.append((pos, pos, G('iterend %d' % nloop_b, '\n' + blocks.get('iterend %d' % nloop_b, '').rstrip() + '\n')))
+                    r4_spans.append((s0, e0))
+                    rewrites_log.append({'rule': 'R4', 'fn': item.name, 'before': re.sub(r'\s+', ' ', text[s0:e0])[:200], 'after': re.sub(r'/\*@G.*?\*/.*?/\*@/G\*/', '', new, flags=re.S)[:200]})
+                    q = e + 1; continue
+            q += 1
+
     # ---- R11: `&mut X[A..B]` on a slice parameter X -> verif_slice_mut(X, A, B) (opt slicemut=1): Verus has no specification
     #      for mutable range indexing; the stub carries the std semantics as an ASSUMED contract.
     if opts.get('slicemut') == '1' and not as_stub:
@@ -438,7 +468,7 @@ def extract_fn(item, opts, blocks, rewrites_log, as_stub=False):
             while q < loops[k - 1][1] and not (tk(q)[0] == 'id' and tk(q)[1] == 'in'): q += 1
             pos = tk(q)[3]
             edits.append((pos, pos, G(key, ' %s: ' % nm)))
-        elif key.startswith('iterloop ') or key.startswith('iterend '):
+        elif key.startswith('iterloop ') or key.startswith('iterend ') or key.startswith('iterbody '):
             continue
         elif key.startswith('loop '):
             k = int(key.split()[1])
@@ -639,7 +669,7 @@ def parse_extract_blocks(lines, i):
                 cur = d.split()[0]
             elif d.split()[0] == 'loopiter':
                 cur = 'loopiter %d %s' % (int(d.split()[1]), d.split()[2])
-            elif d.split()[0] in ('iterloop', 'iterend'):
+            elif d.split()[0] in ('iterloop', 'iterend', 'iterbody'):
                 cur = '%s %d' % (d.split()[0], int(d.split()[1]))
             elif d.split()[0] in ('loop', 'loopend'):
                 cur = '%s %d' % (d.split()[0], int(d.split()[1])) if d.split()[0] == 'loop' else 'loopend %d -' % int(d.split()[1])
